@@ -607,7 +607,7 @@ pub fn event<T: CellT + std::hash::Hash>(m: &Machine<T>, op: &str, a: &Value, re
     let observable = m.arr.is_some() && m.handle.is_none();
     let post = if observable {
         let o = observe::<T>(m.arr.as_ref().unwrap());
-        json!({"obs": true, "nc": o.nc.min(i32::MAX as usize) as u64, "nr": o.nr.min(i32::MAX as usize) as u64, "len": o.len as u64,
+        json!({"obs": true, "nc": o.nc.min(i32::MAX as usize) as u64, "nr": o.nr.min(i32::MAX as usize) as u64, "len": o.len.min(i32::MAX as usize) as u64,
                "data": if T::HAS_VALUE { o.data.clone() } else { vec![0u32; o.len.min(64)] },
                "dup": o.dup, "dead": o.dead + o.garbage,
                "ok": o.shape_ok && o.lens_ok && o.index_ok && o.cap_ok && o.redzone_ok})
